@@ -81,7 +81,25 @@ def check_c03(tier, t0):
             kind = "rejected" if "rejected by field parser" in nt["note"] else "not-reproduced"
             vio.append({"sig": "C03|Field%s|%s|table:%s" % (nt["tag"], kind, nt["content"][:24].replace("\n", "/")),
                         "replay": {"kind": "field", "tag": nt["tag"], "content": nt["content"], "serialised": nt.get("ser")}})
-    return report("C03", tier, "model_checking", vio, _msg_cov(r, "C03", RULE_MSG), MSG_ASSUMPTIONS, t0)
+    # field level: the parsed value exposes every top-level component of the format as it was written (binding table
+    # harness/src/comps.rs), for every in-language content of the FieldFormats shape space whose deviations change a
+    # component's length, value or presence
+    from common import workdir
+    wd = workdir("C03-%s" % tier)
+    cases, n, mcf, cfg = run_fieldformats(wd, tier)
+    out = os.path.join(wd, "fields_out.json")
+    run_harness(["fields", "--cases", cases, "--out", out])
+    fs = json.load(open(out))
+    vio += [{"sig": v["sig"], "replay": v["replay"]} for v in fs["c03_violations"]]
+    log("[C03] field level: %d components of %d contents compared with the members of the parsed value, %d mismatch signatures" %
+        (fs["c03_components"], fs["c03_evaluated"], len(fs["c03_violations"])))
+    cov = _msg_cov(r, "C03", RULE_MSG + "; field level: per in-language content of the FieldFormats shape space (" + cfg + ") every "
+                   "top-level component as written = the member of the parsed value bound to it (dates as calendar dates, amounts as decimals)")
+    cov["states"] += mcf["distinct"]
+    cov["transitions"] += mcf["generated"]
+    cov["evaluations"] += fs["c03_components"]
+    cov["field_level_components"] = fs["c03_components"]
+    return report("C03", tier, "model_checking", vio, cov, MSG_ASSUMPTIONS, t0)
 
 
 def check_c09(tier, t0):
